@@ -13,3 +13,4 @@ from . import bip340  # noqa
 from . import fs  # noqa
 from . import cli  # noqa
 from . import txser  # noqa
+from . import bip39  # noqa
